@@ -109,7 +109,7 @@ def child_main(logger, n, nthr, k, do_remove, poison=None):
         logger.info("P%d-after-remove" % n)   # goes nowhere (handler removed in the child)
 
 
-def parent_run(method, nproc, nthr, k, path, child_remove, repo, poison=None):
+def parent_run(method, nproc, nthr, k, path, child_remove, repo, poison=None, default_context=False):
     if repo not in sys.path:
         sys.path.insert(0, repo)
     import loguru._logger as lg
@@ -117,7 +117,12 @@ def parent_run(method, nproc, nthr, k, path, child_remove, repo, poison=None):
     ctx = multiprocessing.get_context("fork" if method == "osfork" else method)
     logger = lg.Logger(core=lg.Core(), exception=None, depth=0, record=False, lazy=False, colors=False, raw=False,
                        capture=True, patchers=[], extra={})
-    logger.add(path, enqueue=True, context=ctx, format="{message}", catch=False)
+    if default_context and method in ("fork", "osfork"):
+        # no `context=`: loguru creates queue, event and lock from the `multiprocessing` module itself (fork children
+        # inherit them by memory copy)
+        logger.add(path, enqueue=True, format="{message}", catch=False)
+    else:
+        logger.add(path, enqueue=True, context=ctx, format="{message}", catch=False)
     mk = (lambda target, args: _ForkProc(target, args)) if method == "osfork" else \
         (lambda target, args: ctx.Process(target=target, args=args))
     procs = [mk(child_main, (logger, n + 1, nthr, k, child_remove, poison)) for n in range(nproc)]
@@ -131,10 +136,12 @@ def parent_run(method, nproc, nthr, k, path, child_remove, repo, poison=None):
     note = "" if not poison else (" [every %d-th message of %s carries an `extra` object whose un-pickling raises %s: "
                                   "those are reported and skipped, nothing else may be lost]"
                                   % (poison["every"], poison.get("who", "both"), poison["exc"]))
+    deadline = time.time() + 90          # for all children together
     for p in procs:
-        p.join(90)
+        p.join(max(2.0, deadline - time.time()))
         if p.is_alive():
-            bad.append("child process did not finish within 90 s (%s, %d procs)%s" % (method, nproc, note))
+            bad.append("child process did not finish within 90 s (%s, %d procs%s)%s"
+                       % (method, nproc, ", no context= given" if default_context else "", note))
             p.terminate()
         elif p.exitcode != 0:
             bad.append("child process exit code %r" % (p.exitcode,))
@@ -163,6 +170,13 @@ def parent_run(method, nproc, nthr, k, path, child_remove, repo, poison=None):
     if not text.endswith("\n") and text:
         bad.append("file does not end with a newline (torn record)")
     lines = text.split("\n")[:-1]
+    if poison:
+        # a record the worker cannot rebuild is reported and skipped; should it arrive nevertheless, that is no violation
+        unl = {"P%d-T%d-%d" % (n, j, i) for n in range(nproc + 1) for j in range(nthr) for i in range(k) if poisoned(poison, n, i)}
+        seen = [l for l in lines if l in unl]
+        if len(seen) != len(set(seen)):
+            bad.append("a message was written twice: %r" % sorted(set(x for x in seen if seen.count(x) > 1))[:3])
+        lines = [l for l in lines if l not in unl]
     if sorted(lines) != sorted(expected):
         extra = [l for l in lines if l not in expected]
         bad.append("file content differs from the set of logged messages: %d lines, %d expected, unexpected %r%s"
@@ -178,14 +192,14 @@ def parent_run(method, nproc, nthr, k, path, child_remove, repo, poison=None):
     return {"bad": bad}
 
 
-def isolated_run(method, nproc, nthr, k, path, child_remove, repo, timeout=240, poison=None):
+def isolated_run(method, nproc, nthr, k, path, child_remove, repo, timeout=240, poison=None, default_context=False):
     """parent_run in a process of its own: a case in which some thread hangs for ever (a complete() that never
     returns keeps the logger lock, and every later os.fork() of the same process would then wait for it in
     acquire_locks()) cannot disturb the cases after it, and the whole case has a deadline."""
     import json
     import subprocess
     verif = os.path.dirname(os.path.dirname(os.path.abspath(__file__)))
-    cfg = json.dumps([method, nproc, nthr, k, path, child_remove, repo, poison])
+    cfg = json.dumps([method, nproc, nthr, k, path, child_remove, repo, poison, default_context])
     env = dict(os.environ, PYTHONPATH=repo + os.pathsep + verif)
     try:
         p = subprocess.run([sys.executable, "-m", "harness.c03_child", cfg], cwd=verif, env=env, timeout=timeout,
